@@ -49,8 +49,22 @@ template <typename T, bool IsMagnitudeValid>
 struct OverflowChecker {
     // Default case: `IsMagnitudeValid` is true.
     static constexpr bool would_product_overflow(T x, T mag_value) {
+        return would_product_overflow_impl(x, mag_value, std::is_floating_point<T>{});
+    }
+
+ private:
+    static constexpr bool would_product_overflow_impl(T x, T mag_value, std::false_type) {
         return (x > (std::numeric_limits<T>::max() / mag_value)) ||
                (x < (std::numeric_limits<T>::lowest() / mag_value));
+    }
+
+    // For floating point, the quotient `max / mag_value` is rounded, so comparing against it can
+    // miss an `x` whose product just barely overflows.  Halving `x` (which is exact) lets us form
+    // the product itself without overflowing: it exceeds `max / 2` exactly when `x * mag_value`
+    // would round to infinity.
+    static constexpr bool would_product_overflow_impl(T x, T mag_value, std::true_type) {
+        return ((x / T{2}) * mag_value > (std::numeric_limits<T>::max() / T{2})) ||
+               ((x / T{2}) * mag_value < (std::numeric_limits<T>::lowest() / T{2}));
     }
 };
 
